@@ -94,15 +94,15 @@ Proof.
   - left. reflexivity.
 Qed.
 
-(* the cache state a cached run leaves is again valid: runs can be chained for ever *)
+(* from the wording of the property (mtime rounded DOWN to ms), outside the aliasing class KC3 *)
 Theorem same_result_except_K : forall (h : list event) (w0 : world) (a : N) (tr : option tconf) (R : Type) (p : prog R),
   mtime_determines (moments ([], w0) h) ->
-  no_preepoch (moments ([], w0) h) ->
-  no_none_cmd ((a, tr) :: confs h) -> flags_irrelevant T ((a, tr) :: confs h) ->
+  preepoch_whole_ms (moments ([], w0) h) ->
+  no_alias ((a, tr) :: confs h) ->
   nofail p ->
   fst (run_cached H T a tr p (fst (exec ([], w0) h)) (snd (exec ([], w0) h))) = run_plain H T a tr p (snd (exec ([], w0) h)).
 Proof.
-  intros h w0 a tr R p Hm Hp Hn Hf Hnf. apply same_result; auto.
+  intros h w0 a tr R p Hm Hp Hn Hnf. apply same_result; auto.
   - apply stamp_of_mtime; auto.
   - apply tree_faithful_of; auto.
 Qed.
@@ -137,7 +137,7 @@ Lemma stamp_determines_b_sound ws : stamp_determines_b ws = true -> stamp_determ
 Proof.
   intros Hb w1 w2 id i1 i2 I1 I2 E1 E2 Em El.
   eapply (determines_b_sound same_code_stamp ws Hb w1 w2 id); eauto.
-  unfold same_code_stamp. rewrite Em, El, !N.eqb_refl. reflexivity.
+  unfold same_code_stamp. rewrite Em, El, Z.eqb_refl, N.eqb_refl. reflexivity.
 Qed.
 
 Lemma mtime_determines_b_sound ws : mtime_determines_b ws = true -> mtime_determines ws.
@@ -147,12 +147,42 @@ Proof.
   unfold same_real_stamp. rewrite Em, El, Z.eqb_refl, N.eqb_refl. reflexivity.
 Qed.
 
-Lemma preepoch_b_sound ws : preepoch_b ws = false -> no_preepoch ws.
+Lemma preepoch_fraction_b_sound ws : preepoch_fraction_b ws = false -> preepoch_whole_ms ws.
 Proof.
-  unfold preepoch_b. intros Hb w id i Iw Ei.
-  destruct (Z.ltb (i_mtime i) 0) eqn:B; [|apply Z.ltb_ge in B; exact B].
-  exfalso. assert (X : existsb (fun x => Z.ltb (i_mtime (snd x)) 0) (all_inodes ws) = true).
-  { apply existsb_exists. exists (id, i). split; [|exact B].
-    unfold all_inodes. apply in_flat_map. exists w. split; auto. apply inode_lookup_In. exact Ei. }
+  unfold preepoch_fraction_b. intros Hb w id i Iw Ei L.
+  destruct (Z.eqb (Z.modulo (i_mtime i) 1000000) 0) eqn:B; [apply Z.eqb_eq in B; exact B|].
+  exfalso.
+  assert (X : existsb (fun x => Z.ltb (i_mtime (snd x)) 0 && negb (Z.eqb (Z.modulo (i_mtime (snd x)) 1000000) 0))
+                      (all_inodes ws) = true).
+  { apply existsb_exists. exists (id, i). split.
+    - unfold all_inodes. apply in_flat_map. exists w. split; auto. apply inode_lookup_In. exact Ei.
+    - cbn [snd]. rewrite B. apply Z.ltb_lt in L. rewrite L. reflexivity. }
+  congruence.
+Qed.
+
+Lemma tconf_eqb_eq x y : tconf_eqb x y = true -> x = y.
+Proof.
+  destruct x as [c1 i1 k1], y as [c2 i2 k2]. unfold tconf_eqb. cbn [t_cmd t_inplace t_copy].
+  intros E. apply andb_true_iff in E. destruct E as [E E3]. apply andb_true_iff in E. destruct E as [E1 E2].
+  apply list_eqb_eq in E1. apply Bool.eqb_prop in E2, E3. subst. reflexivity.
+Qed.
+
+Lemma otconf_eqb_eq x y : otconf_eqb x y = true -> x = y.
+Proof.
+  destruct x as [a|], y as [b|]; cbn [otconf_eqb]; intros E; try discriminate; auto.
+  f_equal. apply tconf_eqb_eq. exact E.
+Qed.
+
+Lemma alias_b_sound cs : alias_b cs = false -> no_alias cs.
+Proof.
+  unfold alias_b. intros Hb a1 t1 a2 t2 I1 I2 E.
+  destruct (otconf_eqb t1 t2) eqn:B; [apply otconf_eqb_eq; exact B|].
+  exfalso.
+  assert (X : existsb (fun x => existsb (fun y => tree_eqb (tree_of (fst x) (snd x)) (tree_of (fst y) (snd y))
+                                      && negb (otconf_eqb (snd x) (snd y))) cs) cs = true).
+  { apply existsb_exists. exists (a1, t1). split; auto.
+    apply existsb_exists. exists (a2, t2). split; auto.
+    cbn [fst snd]. rewrite B. rewrite E. replace (tree_eqb (tree_of a2 t2) (tree_of a2 t2)) with true; [reflexivity|].
+    symmetry. apply tree_eqb_eq. reflexivity. }
   congruence.
 Qed.
